@@ -17,7 +17,7 @@ RULE = (
     "complete option product, run in-process through cli.tsdate_main(argv): `date`: 3 methods x presence/absence of each of {-m, -e, -b, "
     "-n, -t, --probability-space, --rescaling-intervals, --max-iterations, -p, -r, positional Ne} with one non-default value each (3 x 2^11 "
     "argvs); `preprocess`: --minimum_gap {absent, value} x --erase-flanks {absent, True, False, 0} (also via its alias --trim_telomeres) x "
-    "--split-disjoint {absent, True, False, 0}. a recording wrapper around tsdate.date / tsdate.preprocess_ts captures the keyword "
+    "--split-disjoint {absent, True, False, 0}; plus every numeric `date` option given explicitly as 0 with each method. a recording wrapper around tsdate.date / tsdate.preprocess_ts captures the keyword "
     "arguments that reach the API and returns the real result. oracle: (i) for argvs that are valid, every option given reaches the API with "
     "the value given (and absent options with the API default); the file written loads to exactly the tables the API call returned; (ii) "
     "invalid combinations (option not applicable to the method, missing required rate / population size, recombination rate, positional Ne) "
@@ -47,6 +47,7 @@ def cases(tier, seed):
             continue
         pre.append([mg, ef, efname, sd])
     out.append({"kind": "preprocess", "combos": pre})
+    out.append({"kind": "date_zero"})
     n = 3 * 2 ** len(OPTS) + len(pre)
     return {"cases": out, "states": n, "transitions": n, "bound": f"3 x 2^{len(OPTS)} date argvs + {len(pre)} preprocess argvs", "exhaustive": True}
 
@@ -147,8 +148,11 @@ def run(case):
                                 want["eps"] = float(given.get("-e", 1e-8))
                                 want["probability_space"] = given.get("--probability-space")
                                 want["num_threads"] = int(given["-t"]) if "-t" in given else None
+                            # an argument left out of the call means the API default, which is what None selects too
+                            eff = {"eps": 1e-8, "min_branch_length": 1e-8, "progress": False}
+                            norm = lambda k, x: eff.get(k) if x is None else x  # noqa: E731
                             for k, v in want.items():
-                                if k not in kw or kw[k] != v:
+                                if norm(k, kw.get(k)) != norm(k, v):
                                     viol.append({"kind": "option_value_not_forwarded", "msg": f"{k}: API received {kw.get(k, '<absent>')!r}, command line says {v!r}", "facts": {"option": k}, "sub": sub})
                             extra = set(kw) - set(want)
                             if extra:
@@ -157,6 +161,41 @@ def run(case):
                                 viol.append({"kind": "output_file_differs_from_api_result", "msg": "", "facts": {}, "sub": sub})
                     if sum(mask) >= 2:
                         keys.append(f"{method}|{mask}")
+            elif case["kind"] == "date_zero":
+                # boundary values: each numeric option given explicitly as 0 (an explicit 0 is a value, not "absent")
+                Z = [("--rescaling-intervals", "rescaling_intervals", int), ("--max-iterations", "max_iterations", int), ("-t", "num_threads", int),
+                     ("-n", "population_size", float), ("-b", "min_branch_length", float), ("-m", "mutation_rate", float)]
+                for method, (opt, key, conv) in itertools.product(("variational_gamma", "inside_outside", "maximization"), Z):
+                    vg = method == "variational_gamma"
+                    outp = os.path.join(d, "outz.trees")
+                    if os.path.exists(outp):
+                        os.remove(outp)
+                    argv = ["date", inp, outp, "--method", method]
+                    if opt != "-m":
+                        argv += ["-m", "0.37"]
+                    if not vg and opt != "-n":
+                        argv += ["-n", "3.5"]
+                    argv += [opt, "0"]
+                    rec.clear()
+                    evals += 1
+                    try:
+                        cli.tsdate_main(argv)
+                        status = 0
+                    except SystemExit as e:
+                        status = e.code if isinstance(e.code, int) else 1
+                    except Exception as e:  # noqa: BLE001
+                        status = f"exc:{type(e).__name__}"
+                    wrote = os.path.exists(outp)
+                    sub = {"argv": argv[3:]}
+                    valid = (opt == "--rescaling-intervals" and vg) or (opt == "-t" and not vg)
+                    if valid:
+                        if status != 0 or not wrote:
+                            viol.append({"kind": "valid_invocation_failed", "msg": f"exit status {status}, output written: {wrote}", "facts": {}, "sub": sub})
+                        elif rec.get("kw", {}).get(key, "<absent>") != conv("0") or rec["kw"].get(key) is None:
+                            viol.append({"kind": "option_value_not_forwarded", "msg": f"{key}: API received {rec.get('kw', {}).get(key, '<absent>')!r}, command line says 0", "facts": {"option": key}, "sub": sub})
+                    elif status == 0 or wrote:
+                        viol.append({"kind": "invalid_combination_accepted", "msg": f"{opt} 0 with {method}: exit status {status}, output written: {wrote}", "facts": {"only_eps_with_variational_gamma": False}, "sub": sub})
+                    keys.append(f"zero|{method}|{opt}")
             else:
                 for mg, ef, efname, sd in case["combos"]:
                     outp = os.path.join(d, "pre.trees")
